@@ -374,6 +374,20 @@ func init() {
 		setBodyInC(0)
 		return codecRun(c)
 	}
+	replayers["FuzzVerif_C10_Decompress"] = func(raw json.RawMessage) error {
+		c := &hostileCase{}
+		if err := json.Unmarshal(raw, c); err != nil {
+			return err
+		}
+		idx, msg, err := runHostileBatch([][]byte{c.Input})
+		if err != nil {
+			return nil
+		}
+		if idx >= 0 {
+			return fmt.Errorf("the process decompressing this input through the safe entry points died: %s", msg)
+		}
+		return nil
+	}
 	replayers["TestVerif_C10_Hostile"] = func(raw json.RawMessage) error {
 		c := &hostileCase{}
 		if err := json.Unmarshal(raw, c); err != nil {
